@@ -33,6 +33,7 @@ PSK = bytes(range(3, 35))
 TYPES = ("SensorStateResponse", "BinarySensorStateResponse", "TextSensorStateResponse")
 REQUESTS = ("DeviceInfoRequest", "ListEntitiesRequest", "SubscribeStatesRequest")
 TIMEOUTS = (0.5, 1.0, 2.0)
+EDGE_TIMEOUTS = (0.0, -1.0, -0.001)   # a caller passing `deadline - now` after its budget is used up: the call times out at once, leaving nothing
 
 
 def key_of(n: int, accept: int, stop: int) -> int:
@@ -228,7 +229,7 @@ def run_script(script: dict[str, Any]) -> dict[str, Any]:
 def model_call(spec: dict[str, Any], i: int, rec: Any, o: dict[str, Any]) -> dict[str, Any]:
     """Sequential model for one call over the recorded arrival history."""
     names = {TYPES[t] for t in spec["types"]}
-    deadline = rec.t_call + spec["timeout"]
+    deadline = rec.t_call + max(0.0, spec["timeout"])     # a zero or negative timeout expires in the instant of the call
     if o["closed_seq"] is not None and o["closed_seq"] < rec.seq_call:
         return {"kind": "closed", "t": rec.t_call, "ambiguous": False, "refused": True}
     result: list[int] = []
@@ -286,7 +287,7 @@ def judge(script: dict[str, Any], o: dict[str, Any]) -> list[tuple[str, str]]:
                 if isinstance(e, TimeoutAPIError):
                     if m["kind"] != "timeout" and not m["ambiguous"] and not m.get("alt_timeout"):
                         out.append((f"C11/timeout-instead-of-{m['kind']}", f"call{i} timed out but the model says {m['kind']}"))
-                    elif abs(rec.t_ret - (rec.t_call + calls[i]["timeout"])) > 1e-6:
+                    elif abs(rec.t_ret - (rec.t_call + max(0.0, calls[i]["timeout"]))) > 1e-6:
                         out.append(("C11/timeout-instant", f"call{i} timed out at +{rec.t_ret - rec.t_call:.6f}s, timeout {calls[i]['timeout']}s"))
                 elif isinstance(e, APIConnectionError):
                     if m["kind"] != "closed":
@@ -340,7 +341,7 @@ def gen_script(rng: Any, framing: str) -> dict[str, Any]:
         if rng.random() < 0.5:
             for _ in range(rng.randint(1, 3)):
                 inst.append((rng.choice(types) if rng.random() < 0.8 else rng.randrange(3), rng.randrange(8), rng.randrange(8) if rng.random() < 0.5 else 0))
-        calls.append({"types": types, "timeout": rng.choice(TIMEOUTS), "instant": inst})
+        calls.append({"types": types, "timeout": rng.choice(TIMEOUTS) if rng.random() < 0.93 else rng.choice(EDGE_TIMEOUTS), "instant": inst})
     events: list[Any] = [["0", "call", 0]]
     started = {0}
     n = rng.randint(2, 7)
@@ -463,6 +464,17 @@ def shard(ctx: Ctx) -> None:
                 one(ctx, script, "small-permutations-sample")
     if ctx.shard == 0:
         wrappers(ctx)
+    # zero and negative timeouts, alone and next to a normal call on the same type
+    idx = 0
+    for to in EDGE_TIMEOUTS:
+        for other in (False, True):
+            for gap in ("0", "ms"):
+                idx += 1
+                if not ctx.mine(idx):
+                    continue
+                calls = [{"types": [0, 1], "timeout": to, "instant": []}] + ([{"types": [0], "timeout": 1.0, "instant": []}] if other else [])
+                ev = [["0", "call", 0]] + ([[gap, "call", 1]] if other else []) + [["ms", "arrive", 0, 3, 3], ["ms", "arrive", 1, 3, 3], [gap, "call", 0] if False else ["ms", "arrive", 0, 3, 3]]
+                one(ctx, {"framing": "plain", "calls": calls, "events": ev}, "edge-timeouts")
     # the request's own write fails (transport raises / kernel refuses), alone and with another call already outstanding
     idx = 0
     for cause in ("writeraise", "sendfail", "etimedout"):
